@@ -10,6 +10,7 @@ mod prng;
 mod q;
 mod tracked;
 mod val;
+mod zpipes;
 
 use std::io::Write;
 
